@@ -74,9 +74,11 @@ func BytePattern(t *rapid.T, label string) *big.Int {
 // Raw256 draws any value in [0, 2^256) from the boundary-biased mixture
 // relative to modulus m (not reduced).
 func Raw256(t *rapid.T, m *big.Int, label string) *big.Int {
-	strat := rapid.IntRange(0, 14).Draw(t, label+"_strat")
+	strat := rapid.IntRange(0, 16).Draw(t, label+"_strat")
 	v := new(big.Int)
 	switch strat {
+	case 16: // +-2^t * (limb-sparse value), also counted down from m: what shift-and-subtract algorithms reduce to
+		v = SparseShifted(t, m, label)
 	case 0:
 		v = Uniform256(t, label)
 	case 1:
@@ -104,6 +106,8 @@ func Raw256(t *rapid.T, m *big.Int, label string) *big.Int {
 	case 9: // 2^256 - small
 		v.Sub(two256, one)
 		v.Sub(v, Small(t, label))
+	case 15: // m - k*(2^256 mod m) +- small: where adding a small constant in Montgomery form crosses the modulus
+		v = ModEdge(t, m, label)
 	case 14: // the four limbs of the value (or of its Montgomery form) satisfy a relation among themselves
 		v = LimbRelation(t, m, label)
 	case 13: // limb-wise mixture around the modulus' own limbs (hostile for limb-by-limb range checks)
@@ -181,9 +185,41 @@ var ctrlChoices = []uint64{0, 1, 2, 1 << 32, 1 << 63, ^uint64(0), 0x100, 0xfffff
 // Ctrl draws a control word for ConditionalSelect/Negate: documented
 // semantics are "0 selects a, anything else selects b".
 func Ctrl(t *rapid.T, label string) uint64 {
-	i := rapid.IntRange(0, len(ctrlChoices)).Draw(t, label+"_sel")
-	if i < len(ctrlChoices) {
-		return ctrlChoices[i]
+	switch Sampled([]string{"fixed", "fixed", "fixed", "any", "single-bit", "fold-hostile", "fold-hostile"}).Draw(t, label+"_ckind") {
+	case "fixed":
+		return ctrlChoices[int(rapid.Uint32Range(0, uint32(len(ctrlChoices)-1)).Draw(t, label+"_sel"))]
+	case "single-bit":
+		return 1 << uint(rapid.IntRange(0, 63).Draw(t, label+"_bit"))
+	case "fold-hostile":
+		// non-zero words that a "fold the word, then test for zero" normalisation maps to zero: halves that
+		// cancel under + or xor, 16-bit quarters or bytes that cancel
+		r := rapid.Uint64().Draw(t, label+"_r") | 1
+		switch Sampled([]string{"halves-sum", "halves-sum", "halves-xor", "quarters-sum", "bytes-sum", "bytes-xor", "low-half-zero", "low-byte-zero"}).Draw(t, label+"_fold") {
+		case "halves-sum":
+			lo := uint32(r)
+			return uint64(-lo)<<32 | uint64(lo)
+		case "halves-xor":
+			return uint64(uint32(r))<<32 | uint64(uint32(r))
+		case "quarters-sum":
+			a, b, c := uint16(r), uint16(r>>16), uint16(r>>32)
+			return uint64(-(a+b+c))<<48 | uint64(c)<<32 | uint64(b)<<16 | uint64(a)
+		case "bytes-sum":
+			var sum byte
+			for i := 0; i < 7; i++ {
+				sum += byte(r >> (8 * i))
+			}
+			return uint64(-sum)<<56 | r&0x00ffffffffffffff
+		case "bytes-xor":
+			var x byte
+			for i := 0; i < 7; i++ {
+				x ^= byte(r >> (8 * i))
+			}
+			return uint64(x)<<56 | r&0x00ffffffffffffff
+		case "low-half-zero":
+			return r << 32
+		default:
+			return r << 8
+		}
 	}
 	return rapid.Uint64().Draw(t, label)
 }
@@ -191,6 +227,61 @@ func Ctrl(t *rapid.T, label string) uint64 {
 // Bytes draws a byte string with length in [lo,hi].
 func Bytes(t *rapid.T, lo, hi int, label string) []byte {
 	return rapid.SliceOfN(rapid.Byte(), lo, hi).Draw(t, label)
+}
+
+// SparseShifted draws +-2^t * w (mod m, or counted down from 2^256) where w
+// has only one or two non-zero 64-bit limbs: a small odd low part and one
+// random higher limb, or a general sparse limb pattern.  Shift-and-subtract
+// algorithms (binary / extended GCD inversion, divsteps, square roots by
+// halving, conditional-subtraction reductions) strip the power of two and the
+// difference from the modulus in their first steps and are then left with a
+// value whose middle limbs are all zero -- where a termination test or a carry
+// that looks at the wrong limbs goes wrong.  Plain limb patterns do not get
+// there because they are not counted down from m and are not shifted.
+func SparseShifted(t *rapid.T, m *big.Int, label string) *big.Int {
+	var l [4]uint64
+	if rapid.Bool().Draw(t, label+"_twoterm") {
+		l[0] = Sampled([]uint64{1, 1, 1, 3, 5, 7, 0xff, 1<<32 + 1}).Draw(t, label+"_lowodd")
+		// (a high limb of random bit length, so that there is room to shift when it is the top limb)
+		l[rapid.IntRange(1, 3).Draw(t, label+"_hipos")] = rapid.Uint64().Draw(t, label+"_hi")>>uint(rapid.IntRange(0, 63).Draw(t, label+"_hibits")) | 1
+	} else {
+		for i := range l {
+			switch rapid.IntRange(0, 5).Draw(t, fmt.Sprintf("%s_sp%d", label, i)) {
+			case 0:
+				l[i] = 1
+			case 1:
+				l[i] = rapid.Uint64().Draw(t, fmt.Sprintf("%s_spv%d", label, i))
+			case 2:
+				l[i] = ^uint64(0)
+			}
+		}
+	}
+	w := ref.FromLimbs(l)
+	// shift: none, small, or anything that keeps the value below 2^256
+	room := 256 - w.BitLen()
+	if room < 0 {
+		room = 0
+	}
+	sh := 0
+	switch rapid.IntRange(0, 2).Draw(t, label+"_shk") {
+	case 1:
+		sh = rapid.IntRange(0, 8).Draw(t, label+"_shs")
+	case 2:
+		sh = rapid.IntRange(0, room).Draw(t, label+"_sh")
+	}
+	if sh > room {
+		sh = room
+	}
+	w.Lsh(w, uint(sh))
+	switch rapid.IntRange(0, 3).Draw(t, label+"_from") {
+	case 0:
+		return w.Mod(w, two256)
+	case 1: // counted down from 2^256
+		return w.Sub(two256, w).Mod(w, two256)
+	default: // counted down from the modulus
+		w.Mod(w, m)
+		return w.Sub(m, w)
+	}
 }
 
 // LimbEdge draws a value next to a multiple of 2^64: k*2^64 + e or
@@ -374,8 +465,8 @@ func ModLimbMix(t *rapid.T, m *big.Int, label string) *big.Int {
 
 // LimbRelation draws a non-zero value whose four 64-bit limbs -- of the integer
 // itself or, half of the time, of its Montgomery representation -- satisfy a
-// relation: they sum to 0 mod 2^64, xor to zero, are pairwise equal, or two
-// of them cancel.  Predicates that fold the limbs with the wrong operator
+// relation: they sum to 0 mod 2^64, xor to zero, are pairwise equal, two of
+// them cancel, share no set bit, are complements, or cover all bits.  Predicates that fold the limbs with the wrong operator
 // (a sum or xor where an OR is needed, a comparison of folded halves) are
 // wrong exactly on such values.
 func LimbRelation(t *rapid.T, m *big.Int, label string) *big.Int {
@@ -385,7 +476,13 @@ func LimbRelation(t *rapid.T, m *big.Int, label string) *big.Int {
 			l[i] = Limb(t, fmt.Sprintf("%s_rl%d_%d", label, try, i))
 		}
 		free := rapid.IntRange(0, 2).Draw(t, fmt.Sprintf("%s_free%d", label, try)) // the top limb stays free so that the value can be < m
-		switch Sampled([]string{"sum", "sum", "xor", "pair-equal", "cancel"}).Draw(t, fmt.Sprintf("%s_rel%d", label, try)) {
+		switch Sampled([]string{"sum", "sum", "xor", "pair-equal", "cancel", "disjoint", "complement", "cover"}).Draw(t, fmt.Sprintf("%s_rel%d", label, try)) {
+		case "disjoint": // two limbs share no set bit (an AND where an OR was meant reads this as zero)
+			l[free] &^= l[(free+1)%4]
+		case "complement":
+			l[free] = ^l[(free+1)%4]
+		case "cover": // two limbs together have every bit set
+			l[free] |= ^l[(free+1)%4]
 		case "sum":
 			var sum uint64
 			for i := range l {
@@ -421,4 +518,31 @@ func LimbRelation(t *rapid.T, m *big.Int, label string) *big.Int {
 		return v
 	}
 	return Int256(t, m, label+"_relfallback")
+}
+
+// ModEdge draws m - k*C +- small (and k*C +- small) for C = 2^256 mod m and
+// small k, as a plain value or as a Montgomery representation.  In the
+// Montgomery domain the small integer c is c*C, so these are the operands for
+// which "add a small constant" lands in the gap between the modulus and 2^256
+// or just wraps.
+func ModEdge(t *rapid.T, m *big.Int, label string) *big.Int {
+	c := new(big.Int).Mod(two256, m)
+	k := int64(rapid.IntRange(0, 24).Draw(t, label+"_k"))
+	v := new(big.Int).Mul(c, big.NewInt(k))
+	if rapid.IntRange(0, 3).Draw(t, label+"_side") != 0 {
+		v.Sub(m, v)
+	}
+	off := SignedSmall(t, label+"_off")
+	if rapid.Bool().Draw(t, label+"_within") { // anywhere inside the k-th window
+		off = new(big.Int).Mod(Uniform256(t, label+"_w"), c)
+		if rapid.Bool().Draw(t, label+"_wneg") {
+			off.Neg(off)
+		}
+	}
+	v.Add(v, off)
+	v.Mod(v, m)
+	if rapid.Bool().Draw(t, label+"_mont") {
+		return ref.FromM(v, m)
+	}
+	return v
 }
